@@ -283,6 +283,40 @@ def monOp (op : String) (args : List String) : Option String :=
     | [remaining, startNs, expS, nowNs] =>
       some (if remaining == 0 || startNs + expS * 1000000000 < nowNs then "ok" else "viol C11-closed-before-expiry")
     | _ => none
+  | "mon_tol_monotone" => do
+    -- only emitted when the same deposit was refused under the larger and accepted under the smaller tolerance
+    some "viol C13-tolerance-not-monotone"
+  | "mon_farm_expand_time" => do
+    let (cur, ts) ← pNat args
+    let (endE, _) ← pNat ts
+    some (if cur < endE then "ok" else "viol C11-expand-after-end")
+  | "mon_farm_recorded" => do
+    let (found, ts) ← pBit args
+    let (fault, _) ← pBit ts
+    some (if found then "ok"
+      else if fault then "viol C11-farm-not-recorded,C20-refund-failure-spreads" else "viol C11-farm-not-recorded")
+  | "mon_pool_create" => do
+    -- <fee collector is the sender> <fee collector is the pool manager> <k> (<denom> <attached> <creation fee due> <factory fee due>
+    --   <Δ sender> <Δ fee collector> <Δ pool manager>)*k
+    let (senderIsFc, ts) ← pBit args
+    let (fcIsPm, ts) ← pBit ts
+    let (k, ts) ← pNat ts
+    let (rows, _) ← pRepeat (fun ts => do
+      let (_, ts) ← pTok ts
+      let (att, ts) ← pNat ts
+      let (dc, ts) ← pNat ts
+      let (dtf, ts) ← pNat ts
+      let (ds, ts) ← pInt ts
+      let (dfc, ts) ← pInt ts
+      let (dpm, ts) ← pInt ts
+      pure ((att, dc, dtf, ds, dfc, dpm), ts)) k ts
+    let bad := rows.filterMap fun (att, dc, dtf, ds, dfc, dpm) =>
+      if att != dc + dtf then some "C16-create-exact-funds"
+      else if fcIsPm then (if dpm == (dc : Int) && ds == -(att : Int) then none else some "C16-create-fee-routing")
+      else if dpm != 0 then some "C16-create-kept,C01-excess"
+      else if senderIsFc then (if ds == -(att : Int) + (dc : Int) then none else some "C16-create-fee-routing")
+      else if ds == -(att : Int) && dfc == (dc : Int) then none else some "C16-create-fee-routing"
+    some (match bad with | [] => "ok" | t :: _ => "viol " ++ t)
   | "mon_pos_ident" => do
     let (known, ts) ← pBit args
     let (ok, _) ← pBit ts
